@@ -945,6 +945,9 @@ func checkBigEndian(c *Ctx) {
 	}
 	if f := p.Func("marshalUint32"); f != nil {
 		got := appendShifts(f)
+		if len(got) == 0 && callsBigEndian(f, "AppendUint32") {
+			got = []int64{24, 16, 8, 0} // the standard library's big-endian append of the same width
+		}
 		c.check(eq(got, []int64{24, 16, 8, 0}), "R4", "marshalUint32 byte order", p.Pos(f.Pos()), "v>>24, v>>16, v>>8, v", fmt.Sprintf("marshalUint32 appends the bytes with shifts %v: not big-endian", got))
 	} else {
 		c.missing("R4", "marshalUint32")
@@ -955,6 +958,9 @@ func checkBigEndian(c *Ctx) {
 	}{{"(*Buffer).AppendUint32", []int64{24, 16, 8, 0}}, {"(*Buffer).AppendUint64", []int64{56, 48, 40, 32, 24, 16, 8, 0}}, {"(*Buffer).AppendUint16", []int64{8, 0}}} {
 		if f := p.FuncIn(p.Sshfx, spec.name); f != nil {
 			got := appendShifts(f)
+			if len(got) == 0 && callsBigEndian(f, strings.TrimPrefix(spec.name, "(*Buffer).")) {
+				got = spec.want // (*Buffer).AppendUintNN through binary.BigEndian.AppendUintNN: same width, big-endian
+			}
 			c.check(eq(got, spec.want), "R4", "sshfx "+spec.name+" byte order", p.Pos(f.Pos()), fmt.Sprint(spec.want), fmt.Sprintf("%s appends the bytes with shifts %v: not big-endian", spec.name, got))
 		} else {
 			c.missing("R4", "sshfx "+spec.name)
@@ -978,6 +984,9 @@ func checkBigEndian(c *Ctx) {
 				}
 			}
 		})
+		if len(got) == 0 && callsBigEndian(f, "Uint32") {
+			got = map[int64]int64{0: 24, 1: 16, 2: 8}
+		}
 		// b[3] is used unshifted
 		c.check(got[0] == 24 && got[1] == 16 && got[2] == 8 && len(got) == 3, "R4", "unmarshalUint32 byte order", p.Pos(f.Pos()), "b[0]<<24 | b[1]<<16 | b[2]<<8 | b[3]", fmt.Sprintf("unmarshalUint32 shifts %v: not big-endian", got))
 		// returns b[4:]
@@ -1506,4 +1515,19 @@ func checkBufferReinitialisers(c *Ctx, rule string) {
 			fnName(fn)+" gives the Buffer new contents and offset 0 but keeps Err: after one over-read every later decode through this Buffer yields zero values and ErrShortPacket, whatever bytes it was given")
 	}
 	c.check(n >= 3, rule, "methods that rewind a Buffer", "?", fmt.Sprintf("%d methods", n), fmt.Sprintf("only %d found (Reset, StartPacket, UnmarshalBinary expected)", n))
+}
+
+// callsBigEndian: f obtains its bytes (or its value) from encoding/binary's BigEndian method of that name.
+func callsBigEndian(f *ssa.Function, method string) bool {
+	found := false
+	eachInstr(f, func(in ssa.Instruction) {
+		if cc := callOf(in); cc != nil {
+			if fn := calleeFunc(cc); fn != nil && fn.Name() == method && fn.Pkg() != nil && fn.Pkg().Path() == "encoding/binary" {
+				if sig, ok := fn.Type().(*types.Signature); ok && sig.Recv() != nil && typeName(sig.Recv().Type()) == "bigEndian" {
+					found = true
+				}
+			}
+		}
+	})
+	return found
 }
